@@ -1,6 +1,8 @@
 (* C06 - the 32-byte storage format is lossless, canonical and strictly validated. *)
 From PS Require Import Base PackDefs StoreDefs ApiDefs SpecDefs SpecApi PackProofs PackTheorems StoreProofs ApiLemmas
   RefineProofs ApiTheorems.
+From PS Require Import CTieStore.
+From PS.Gen Require CFuns.
 From PS.Gen Require Import Consts Langs.
 Local Open Scope N_scope.
 
@@ -56,3 +58,22 @@ Theorem C06_api_roundtrip : forall sgn cs a h d, R cs a -> heap_get (st_heap cs)
   outp r = OutStatus ST_OK (Some (st_next cs)) None /\ heap_get (st_heap (stp r)) (st_next cs) = Some d.
 Proof. exact load_store_api. Qed.
 Print Assumptions C06_api_roundtrip.
+
+(* ---- the tie to the code: storage.c as TRANSLATED from /repo's current source on this run (Gen/CFuns.v:
+   pointer walks resolved to constant offsets, store16/load16 inlined, memcpy/memcmp expanded) *)
+Theorem C06_code_tie_store : forall d st0, Canon d -> d_checksum d < 2048 ->
+  CFuns.polyseed_data_store (Z.of_N (d_birthday d)) (Z.of_N (d_features d)) (map Z.of_N (d_secret d))
+    (Z.of_N (d_checksum d)) st0 = map Z.of_N (data_store d).
+Proof. exact tie_data_store. Qed.
+Print Assumptions C06_code_tie_store.
+
+(* for EVERY 32-byte buffer and whatever the struct held before: FORMAT exactly when the mirror says so,
+   otherwise the same struct with every field written *)
+Theorem C06_code_tie_load : forall buf b0 f0 sec0 c0, length buf = 32%nat -> bytes_ok buf ->
+  match data_load buf with
+  | LoadFormat => snd (CFuns.polyseed_data_load (map Z.of_N buf) b0 f0 sec0 c0) = Z.of_N ST_FORMAT
+  | LoadOk d => CFuns.polyseed_data_load (map Z.of_N buf) b0 f0 sec0 c0 =
+                (Z.of_N (d_birthday d), Z.of_N (d_features d), map Z.of_N (d_secret d), Z.of_N (d_checksum d), Z.of_N ST_OK)
+  end.
+Proof. exact tie_data_load. Qed.
+Print Assumptions C06_code_tie_load.
